@@ -168,6 +168,79 @@ func C04(ctx *core.Ctx) {
 		}
 	}
 
+	// ---- S7 header rewrite (addHeadersToFrame) ---------------------------------------------
+	ctx.Rule("C04.S7", "header rewrite keeps the layout: new frame = 4-byte size ‖ marshal(merged headers) ‖ old payload, sized from the merged map", 4)
+	if ah := r.Fn("C04.S7", "(*v0ProtocolMarshaler).addHeadersToFrame"); ah != nil && enc != nil && calc != nil {
+		an := ssax.Name(ah)
+		var marshalArg, calcArg ssa.Value
+		var calcCall, oldSize ssa.Value
+		var mk *ssa.MakeSlice
+		var put ssax.Call
+		var copies []ssax.Call
+		ssax.Instrs(ah, func(in ssa.Instruction) {
+			if m, ok := in.(*ssa.MakeSlice); ok {
+				mk = m
+			}
+			c, ok := ssax.AsCall(in)
+			if !ok {
+				return
+			}
+			switch {
+			case c.Static == enc:
+				marshalArg = ssax.Strip(c.Common.Args[1])
+			case c.Static == calc:
+				calcArg, calcCall = ssax.Strip(c.Common.Args[1]), in.(ssa.Value)
+			case strings.HasSuffix(c.FullName(), ".Uint32"):
+				oldSize = in.(ssa.Value)
+			case strings.HasSuffix(c.FullName(), ".PutUint32"):
+				put = c
+			case c.FullName() == "builtin.copy":
+				copies = append(copies, c)
+			}
+		})
+		// merged map: the map read from the frame, updated with every added header
+		merged := false
+		if tup, ok := ExtractOf(marshalArg, 0); ok {
+			if c, isC := CallValue(tup); isC && c.Static != nil && c.Static.Name() == "unmarshalHeadersFromFrame" {
+				okR, _ := rangeStoresAll(ah, ah.Params[2], marshalArg)
+				merged = okR
+			}
+		}
+		ctx.Check(merged, "C04.S7", an+" › serialises the frame's headers merged with the added ones", fnPos(r, ah), "existing[name] = value for every added header, then marshalHeaders(existing)", "the rewritten frame does not carry the union of the old and the added headers")
+		ctx.Check(marshalArg != nil && calcArg == marshalArg, "C04.S7", an+" › frame size is computed from the same (merged) map that is serialised", fnPos(r, ah), "calculateHeaderSize(existing) and marshalHeaders(existing)", "the new frame size is computed from a different header map than the one written (e.g. the added headers only): when an added name already exists the frame is too large, its size prefix is wrong and zero bytes are appended to the payload")
+		okLay := false
+		if mk != nil && calcCall != nil && oldSize != nil && put.Instr != nil && len(copies) == 2 {
+			e := pr.EnvAt(copies[1].Instr.(ssa.Instruction))
+			T := e.Term
+			size := T(mk.Len)
+			want := T(calcCall).Add(e.LenOf(ah.Params[1])).Sub(T(oldSize))
+			d1, ok1 := copies[0].Common.Args[0].(*ssa.Slice)
+			d2, ok2 := copies[1].Common.Args[0].(*ssa.Slice)
+			s2, ok3 := copies[1].Common.Args[1].(*ssa.Slice)
+			if ok1 && ok2 && ok3 {
+				okLay = termEq(size, want) &&
+					termEq(T(put.Common.Args[2]), size.AddConst(-4)) &&
+					ssax.Strip(put.Common.Args[1]) == ssa.Value(mk) &&
+					termEq(T(d1.Low), lin.Const(4)) &&
+					termEq(T(d2.Low), lin.Const(4).Add(T(copies[0].Instr.Value()))) &&
+					ssax.Strip(s2.X) == ssa.Value(ah.Params[1]) && termEq(T(s2.Low), lin.Const(9).Add(T(oldSize)))
+			}
+		}
+		ctx.Check(okLay, "C04.S7", an+" › size prefix, header block and payload offsets", fnPos(r, ah), "len = size(merged)+len(frame)−oldSize; prefix = len−4; headers at 4; payload = frame[9+oldSize:] right after them", "the rewritten frame's size prefix / offsets do not follow the layout: the payload is shifted, truncated or padded")
+		// caller checks the minimum length before indexing
+		if wr := r.FnOpt("addHeadersToFrame"); wr != nil {
+			cfg2 := &bounds.Config{IntBits: IntBits(), AssumeLenI32: true}
+			p2 := bounds.New(cfg2)
+			okB := true
+			for _, o := range p2.Check(wr) {
+				if !o.Proved {
+					okB = false
+				}
+			}
+			ctx.Check(okB, "C04.S7", "addHeadersToFrame › version byte is read only from a frame of at least 5 bytes", fnPos(r, wr), "frame[4] guarded by len(frame) ≥ 5", "frame[4] can be read from a shorter frame")
+		}
+	}
+
 	// ---- S5 ---------------------------------------------------------------------------
 	py := filepath.Join(ctx.RepoDir, "lib/python/frugal/util/headers.py")
 	out, err := exec.Command("python3", filepath.Join(ctx.VerifDir, "scripts/py_headers.py"), py).Output()
@@ -477,4 +550,45 @@ func c04Decoder(ctx *core.Ctx, r *RT, pr *bounds.Prover, dec *ssa.Function) {
 
 func exprSlice(s *ssa.Slice) string {
 	return "buff[" + ssax.AddrKey(s.Low) + ":" + ssax.AddrKey(s.High) + "]"
+}
+
+// rangeStoresAll: fn ranges over map `src` and stores every (k, v) into map `dst`, unconditionally.
+func rangeStoresAll(fn *ssa.Function, src ssa.Value, dst ssa.Value) (bool, string) {
+	var rg *ssa.Range
+	ssax.Instrs(fn, func(in ssa.Instruction) {
+		if r, ok := in.(*ssa.Range); ok && ssax.Strip(r.X) == ssax.Strip(src) {
+			rg = r
+		}
+	})
+	if rg == nil {
+		return false, "no loop over the added headers"
+	}
+	ok := false
+	for _, u := range *rg.Referrers() {
+		nx, isN := u.(*ssa.Next)
+		if !isN {
+			continue
+		}
+		ssax.Instrs(fn, func(in ssa.Instruction) {
+			mu, isMU := in.(*ssa.MapUpdate)
+			if !isMU || ssax.Strip(mu.Map) != ssax.Strip(dst) {
+				return
+			}
+			k, ok1 := ssax.Strip(mu.Key).(*ssa.Extract)
+			v, ok2 := ssax.Strip(mu.Value).(*ssa.Extract)
+			if ok1 && ok2 && k.Tuple == ssa.Value(nx) && v.Tuple == ssa.Value(nx) && k.Index == 1 && v.Index == 2 {
+				// unconditional in the loop body: its block is the ok-successor of the Next test
+				for _, r2 := range *nx.Referrers() {
+					if e, isE := r2.(*ssa.Extract); isE && e.Index == 0 {
+						for _, r3 := range *e.Referrers() {
+							if iff, isIf := r3.(*ssa.If); isIf && iff.Block().Succs[0] == in.Block() {
+								ok = true
+							}
+						}
+					}
+				}
+			}
+		})
+	}
+	return ok, ""
 }
